@@ -47,7 +47,7 @@ MODES = ["yes", "deps", "forced", "forced-deps", "forced-fallback", "packages=r[
 def plan(tier):
     if tier == "thorough":
         return {"cases": 2000, "timeout": 600, "wall_budget": 1700, "recheck": 5, "nproc": 6}
-    return {"cases": 30, "timeout": 400, "wall_budget": 65, "recheck": 2, "nproc": 6}
+    return {"cases": 60, "timeout": 400, "wall_budget": 120, "recheck": 2, "nproc": 6}
 
 def gen_case(rng, tier, index):
     if index % 5 == 4:
